@@ -195,13 +195,13 @@ def parse_statement(lexer, toplevel=False):
         if lexer.matchIf("unqualified", "identifier"):
             unqualified = True
         elif lexer.matchIf(["import", "["], ["identifier", "interpunction"]):
-            symbols = dict()
+            symbols = []    # (symbol, name it is bound to), in written order
             while not lexer.peekn(1, "]", "interpunction"):
                 symbol = lexer.matchIdentifier()
                 symbolname = symbol
                 if lexer.matchIf("as", "keyword"):
                     symbolname = lexer.matchIdentifier()
-                symbols[symbol] = symbolname
+                symbols.append((symbol, symbolname))
                 if not lexer.peekn(1, "]", "interpunction"):
                     lexer.match(",", "interpunction")
             lexer.match("]", "interpunction")
